@@ -1247,10 +1247,24 @@ fn gen_c10(seed: u64, _index: u64, tier: Tier) -> ResolvePlan {
         }
         src_of.push(cur);
     }
+    // some local links are wildcard aliases, matched one to three labels down
+    let wild_below = |r: &mut Rng| -> Option<&'static str> {
+        if r.chance(0.2) {
+            Some(*r.pick(&["x", "x.y", "x.y", "x.y.z"]))
+        } else {
+            None
+        }
+    };
     let name_of = |i: usize, src: &str, r: &mut Rng, u: &Universe| -> String {
         match src {
-            "auth" => format!("c{i}.{AUTH_APEX}"),
-            "nonauth" => format!("c{i}.over.test."),
+            "auth" => match wild_below(r) {
+                Some(below) => format!("{below}.w{i}.{AUTH_APEX}"),
+                None => format!("c{i}.{AUTH_APEX}"),
+            },
+            "nonauth" => match wild_below(r) {
+                Some(below) => format!("{below}.w{i}.over.test."),
+                None => format!("c{i}.over.test."),
+            },
             "cache" => format!("c{i}.cached.test."),
             _ => {
                 let z = *r.pick(&up_zones);
@@ -1301,11 +1315,31 @@ fn gen_c10(seed: u64, _index: u64, tier: Tier) -> ResolvePlan {
         } else {
             cycle_to.map(|j| names[j].clone())
         };
+        // `x.y.w3.<apex>` is matched by the wildcard `*.w3.<apex>`
+        let wild_owner: Option<String> = {
+            let mut n = names[i].clone();
+            let mut found = None;
+            while let Some(p) = universe::parent(&n) {
+                if n.starts_with(&format!("w{i}.")) {
+                    found = Some(n.clone());
+                    break;
+                }
+                n = p;
+            }
+            found.filter(|_| matches!(src_of[i], "auth" | "nonauth") && !names[i].starts_with(&format!("w{i}.")))
+        };
+        let rec = |data: &str| match &wild_owner {
+            Some(o) => universe::Rec {
+                wild: true,
+                ..universe::Rec::new(o, data, 3600)
+            },
+            None => universe::Rec::new(&names[i], data, 3600),
+        };
         match target {
-            Some(t) => put(src_of[i], universe::Rec::new(&names[i], &format!("CNAME {t}"), 3600), &mut u),
+            Some(t) => put(src_of[i], rec(&format!("CNAME {t}")), &mut u),
             None => {
                 for d in &final_data {
-                    put(src_of[i], universe::Rec::new(&names[i], d, 3600), &mut u);
+                    put(src_of[i], rec(d), &mut u);
                 }
             }
         }
@@ -1361,11 +1395,15 @@ fn gen_c10(seed: u64, _index: u64, tier: Tier) -> ResolvePlan {
 fn reference_chain(plan: &ResolvePlan, qname: &str) -> (Vec<(String, String)>, Option<String>, bool) {
     // (owner, target) links; final name; cyclic?
     let mut links: BTreeMap<String, String> = BTreeMap::new();
+    // wildcard aliases of local zones: (the wildcard's parent, target)
+    let mut wild_links: Vec<(String, String)> = Vec::new();
     let mut add = |rec: &universe::Rec| {
         if rec.rtype() == "CNAME" && !rec.wild {
             links
                 .entry(rec.owner.to_ascii_lowercase())
                 .or_insert_with(|| rec.rdata().to_ascii_lowercase());
+        } else if rec.rtype() == "CNAME" {
+            wild_links.push((rec.owner.to_ascii_lowercase(), rec.rdata().to_ascii_lowercase()));
         }
     };
     for z in &plan.local {
@@ -1378,7 +1416,19 @@ fn reference_chain(plan: &ResolvePlan, qname: &str) -> (Vec<(String, String)>, O
     let mut chain = Vec::new();
     let mut name = qname.to_ascii_lowercase();
     let mut seen = vec![name.clone()];
-    while let Some(t) = links.get(&name) {
+    loop {
+        // the generator puts nothing else beneath a wildcard's parent
+        let t = match links.get(&name) {
+            Some(t) => t.clone(),
+            None => match wild_links
+                .iter()
+                .find(|(o, _)| name.len() > o.len() && name.ends_with(&format!(".{o}")))
+            {
+                Some((_, t)) => t.clone(),
+                None => break,
+            },
+        };
+        let t = &t;
         chain.push((name.clone(), t.clone()));
         if seen.contains(t) {
             return (chain, None, true);
@@ -1466,6 +1516,12 @@ fn oracle_c10(plan: &ResolvePlan, obs: &Observations) -> RunResult {
                             universe::names_equal(&l.owner, &rr.name.to_dotted_string())
                                 && crate::util::parse_data(&l.data) == rr.rtype_with_data
                         })
+                    })
+                    // ... and it did arrive in an upstream reply of this resolution
+                    && obs.exchanges[q.exchanges.clone()].iter().any(|e| {
+                        e.reply
+                            .as_ref()
+                            .is_some_and(|m| m.answers.iter().any(|a| same_record(a, rr)))
                     })
             });
             // a loop re-entered in the middle of a multi-link upstream reply: the
